@@ -92,7 +92,15 @@ def harness_build():
     os.makedirs(BUILD, exist_ok=True)
     hdir = os.path.join(VERIF, "harness")
     shutil.copy(os.path.join(REPO, "go.sum"), os.path.join(hdir, "go.sum"))
-    r = run(["go", "build", "-tags", "verif", "-o", HARNESS_BIN, "."], cwd=hdir, env=GOENV, timeout=600)
+    cmd = ["go", "build", "-tags", "verif", "-o", HARNESS_BIN]
+    if os.path.abspath(REPO) != "/repo":
+        # VERIF_REPO (seeded changes in a scratch worktree): same module file with the replace redirected
+        alt = os.path.join(BUILD, "go.alt.mod")
+        mod = open(os.path.join(hdir, "go.mod")).read().replace("=> /repo", "=> " + os.path.abspath(REPO))
+        open(alt, "w").write(mod)
+        shutil.copy(os.path.join(REPO, "go.sum"), os.path.join(BUILD, "go.alt.sum"))
+        cmd.append("-modfile=" + alt)
+    r = run(cmd + ["."], cwd=hdir, env=GOENV, timeout=600)
     return r.returncode == 0, r.stdout + r.stderr
 
 
